@@ -6,6 +6,7 @@ AU = "src/cpp/automations.cpp"
 PS = "include/rtosc/port-sugar.h"
 RC = "src/rtosc.c"
 PC = "src/cpp/ports.cpp"
+SF = "src/cpp/savefile.cpp"
 MUTANTS = [
  dict(id="C06", name="publish_before_copy", edits=[(TL,
   """    const off_t  next_write = (ring->write + len)%ring->size;
@@ -185,4 +186,25 @@ MUTANTS = [
  dict(id="C03", name="link_read_allocates_on_wrap", edits=[(TL, "    if(next_read < read) {\n        const size_t r1 = ring->size - read;", "    if(next_read < read) {\n        char *wrap_tmp = new char[len]; wrap_tmp[0] = ring->buffer[0]; { volatile char sink_ = wrap_tmp[0]; (void)sink_; } delete[] wrap_tmp;\n        const size_t r1 = ring->size - read;")]),
  dict(id="C03", name="default_handler_std_function_copy", edits=[(PC, "            } else if(default_handler) {\n                d.matches++;\n                default_handler(m,d), d.obj = obj;", "            } else if(default_handler) {\n                d.matches++;\n                std::function<void(msg_t, RtData&)> handler_copy = default_handler; std::vector<int> seen_(32); handler_copy(m,d), d.obj = obj;")]),
  dict(id="C03", name="match_duplicates_pattern", edits=[("src/dispatch.c", "    const char *arg_pattern = rtosc_match_path(pattern, msg, path_end);\n    if(!arg_pattern)\n        return false;", "    char *pattern_dup = (char*)malloc(strlen(pattern)+1);\n    strcpy(pattern_dup, pattern);\n    const char *arg_pattern = rtosc_match_path(pattern_dup, msg, path_end);\n    if(arg_pattern) arg_pattern = pattern + (arg_pattern - pattern_dup);\n    free(pattern_dup);\n    if(!arg_pattern)\n        return false;")]),
+
+ # ---- C12 savefiles
+ dict(id="C12", name="preset_default_ignores_selector", edits=[("src/cpp/default-value.cpp", "        strncat(default_variant, dependent_value,\n                buffersize - strlen(default_variant));", "        strncat(default_variant, \"0\",\n                buffersize - strlen(default_variant));")]),
+ dict(id="C12", name="disabled_subtrees_not_pruned", edits=[(PC, "            bool res = rval.type == 'T' || (rval.type == 'i' && rval.val.i != 0);", "            bool res = true; (void)rval;")]),
+ dict(id="C12", name="other_application_accepted", edits=[(SF, "    if(n <= 0 || strcmp(appbuf, appname) || vma > 255 || vmi > 255 || vre > 255)", "    if(n <= 0 || vma > 255 || vmi > 255 || vre > 255)")]),
+ dict(id="C12", name="foreign_header_first_check_removed_benign", expect=0, edits=[(SF, "    if(n <= 0 || vma > 255 || vmi > 255 || vre > 255)\n        return -bytes_read-1;\n    if(dispatcher)\n    {\n        dispatcher->rtosc_filever.major = vma;", "    if(0)\n        return -bytes_read-1;\n    if(dispatcher)\n    {\n        dispatcher->rtosc_filever.major = vma;")]),
+ dict(id="C12", name="failed_dispatch_not_reported", edits=[(SF, "    return ok ? msgs_read : -rd_total-1;", "    return msgs_read;")]),
+ dict(id="C12", name="floats_printed_lossy", edits=[("src/cpp/pretty-format.c", " = &((rtosc_print_options) { true, 2, \" \", 80, true});", " = &((rtosc_print_options) { false, 2, \" \", 80, true});")]),
+ dict(id="C12", name="v2argvals_walks_past_valueless_tags", edits=[(RC, "        switch(*arg_str)\n        {\n            case 'T': args->val.T = 1; break;\n            case 'F': args->val.T = 0; break;\n            case 'N': case 'I': break;\n            default:\n                rtosc_v2args(&args->val, 1, arg_str, &ap2);\n        }", "        rtosc_v2args(&args->val, 1, arg_str, &ap2);")]),
+ dict(id="C12", name="array_suffix_trim_off_by_one", edits=[(SF, "                first_equal = ritr.i + 1;", "                first_equal = ritr.i;")]),
+ dict(id="C12", name="values_equal_to_default_written", edits=[(SF, "                if(!rtosc_arg_vals_eq(arg_vals_default, arg_vals_runtime,\n                                      nargs_default, nargs_runtime, nullptr))", "                if(nargs_runtime != 1 || arg_vals_runtime[0].type != 'f' || !rtosc_arg_vals_eq(arg_vals_default, arg_vals_runtime,\n                                      nargs_default, nargs_runtime, nullptr))")]),
+ dict(id="C12", name="load_hangs_on_address_only_line", edits=[(SF, "                    if(!nargs)\n                        break;", "")]),
+ dict(id="C12", name="scanner_date_heuristic", edits=[("src/cpp/pretty-format.c", "            else if(isdigit(src[0]) && isdigit(src[1]) && isdigit(src[2]) &&\n                    isdigit(src[3]) && src[4] == '-')", "            else if(src[0] && src[1] && src[2] && src[3] && src[4] == '-')")]),
+ dict(id="C12", name="option_saved_as_symbol_off_by_one", edits=[(PC, "void rtosc::map_arg_vals(rtosc_arg_val_t* av, size_t n,\n                         Port::MetaContainer meta)\n{", "void rtosc::map_arg_vals(rtosc_arg_val_t* av, size_t n,\n                         Port::MetaContainer meta)\n{\n    for(size_t q = 0; q < n; ++q) if(av[q].type == 'i' && av[q].val.i == 2 && meta[\"map 3\"]) av[q].val.i = 3;")]),
+ # ---- C13 order independence
+ dict(id="C13", name="no_topological_sort", edits=[(SF, "    for(std::size_t order_id : order)\n    {", "    for(std::size_t order_id_ = 0; order_id_ < message_v.size(); ++order_id_)\n    {\n        std::size_t order_id = order_id_;")]),
+ dict(id="C13", name="default_depends_edges_missing", edits=[(SF, '            const char* dep_types[3] = { "enabled by", "depends", "default depends" };', '            const char* dep_types[2] = { "enabled by", "depends" };')]),
+ dict(id="C13", name="enabled_by_edges_missing", edits=[(SF, '            const char* dep_types[3] = { "enabled by", "depends", "default depends" };', '            const char* dep_types[2] = { "depends", "default depends" };')]),
+ dict(id="C13", name="depends_edges_missing", edits=[(SF, '            const char* dep_types[3] = { "enabled by", "depends", "default depends" };', '            const char* dep_types[2] = { "enabled by", "default depends" };')]),
+ dict(id="C13", name="parents_not_scanned_for_dependencies", edits=[(SF, "          cur_portname.resize(last_slash))\n    {", "          cur_portname.resize(0))\n    {")]),
+ dict(id="C13", name="edge_direction_reversed", edits=[(SF, "            ++n_input_edges[dep];", "            (void)dep;"), (SF, "            if(--n_input_edges[dependee] == 0)\n                no_incoming_edge.push(dependee);", "            (void)dependee;")]),
 ]
